@@ -2,7 +2,7 @@
 import json
 import os
 
-from facts import AnalysisBroken, VERIF
+from facts import AnalysisBroken, VERIF, walk
 from symex import Sym, State, Unsupported
 import contracts
 import wire
@@ -258,30 +258,28 @@ def run(ck, F):
 
     # the elements a scope reports (and hence the factors of its product type) are those of its store *now*: size() is an observation
     # of the store, not a count kept on the side that some way of filling the store does not update
-    R_sz = ck.rule('C09.scope-size-derived', 'size() of every scope class (heterogeneous and homogeneous) is computed from the store of '
-                   'declarations itself (its size / the distance between its ends), not read from a separately maintained member: the '
-                   'elements, and with them the type of the scope, always reflect what has been entered, by whatever route', floor=4)
-    for f in sorted(F.fn.values(), key=lambda f: f['id']):
-        par = f.get('parent') or ''
-        if f['name'] != 'size' or f.get('params') or not f.get('body') or not (par.startswith('ipr::impl::homogeneous_scope<') or par == 'ipr::impl::Scope'):
-            continue
-        try:
-            outs = S.run(f['id'], this=('sym', 'this'), args=[])
-        except Unsupported as e:
-            raise AnalysisBroken(f'{f["id"]}: {e}')
+    R_sz = ck.rule('C09.scope-size-derived', 'size() of every scope class (heterogeneous and homogeneous) agrees with the store of declarations: '
+                   'it is computed from the store itself (its size / the distance between its ends), or it reads a member that every '
+                   'constructor sets to the size the store starts with and every member function changes by exactly the number of elements '
+                   'it enters, nothing outside the class entering any: the elements, and with them the type of the scope, always reflect '
+                   'what has been entered, by whatever route', floor=4)
+    import invariants as _inv
+    S_plain = Sym(F, max_depth=40)
+    S_plain.use_lemmas = False          # the rule judges the induction itself
+    for f in _inv.size_functions(F):
+        par = f['parent']
         bad = []
-        for st, k, v in outs:
-            if k != 'return':
+        for st, v, kind, m in _inv.size_answers(F, S_plain, f):
+            if kind == 'store':
                 continue
-            t = v
-            while isinstance(t, tuple) and t and t[0] in ('castto', 'after'):
-                t = t[2]
-            observed = isinstance(t, tuple) and t[:1] in (('call',), ('vcall',)) and contracts.fn_simple(t[1]) in ('size', 'distance')
-            observed = observed or (isinstance(t, tuple) and t[:1] == ('k',))      # a store of fixed size (a singleton): its size() inlined
-            if not observed:
-                bad.append(contracts.render(v, st, {})[:60])
-        ck.check(R_sz, contracts.short(par) + '::size', not bad, f'{f["id"]} answers `{bad[:2]}`: a count kept beside the store, which a store filled by '
-                 'another route (a constructor, a direct push) does not match', loc=f['loc'], fn=f['id'])
+            if kind == 'member':
+                why, judged = _inv.counter_agrees(F, S_plain, par, m, f)
+                ck.note(f'{contracts.short(par)}::size reads the member `{m}`: judged by induction over {judged} constructor / member-function path(s)')
+                bad.extend(why[:3])
+            else:
+                bad.append(f'answers `{contracts.render(v, st, {})[:60]}`, which is neither computed from the store nor a member of the scope')
+        ck.check(R_sz, contracts.short(par) + '::size', not bad, f'{f["id"]}: ' + '; '.join(bad) + ' -- a count kept beside the store that a store '
+                 'filled by another route (a constructor, a direct push) does not match', loc=f['loc'], fn=f['id'])
     # members entered into an enumeration, a parameter list, a base list: the enumerator has the enumeration as its type, a parameter
     # or a base the type it was given -- on every path, whatever else the owner has been told since (an underlying type, ...)
     MEMBER_TYPES = {'ipr::impl::Enum::add_member(const ipr::Name &)': '$this',
